@@ -355,6 +355,9 @@ func (d *seqDriver) put(base int64, used bool, reuseLoan bool) {
 	heldSelf := m.findID(sb.id) >= 0
 	if !retained {
 		switch {
+		case ev == sb.b && heldSelf:
+			d.bad("put-hands-back-held-block", "Put of #%d (base %d), which the cache still holds after lending it out with Get, returned the block for reuse: the caller will overwrite a block the cache files under base %d", sb.id, sb.base, sb.base)
+			return
 		case ev == sb.b:
 			d.release(sb)
 		case ev == nil && heldSelf:
